@@ -253,7 +253,7 @@ func (s *st) expect(t *world.Tok, disableRT bool) int {
 func truth(jwt bool, historyKinds, nStrategies, maxScopes int) {
 	disableRT := zz.Choice("disable-refresh-validation", 2) == 1
 	strat := zz.Choice("scope-strategy", nStrategies)
-	s := &st{jwt: jwt, w: world.NewX(world.XOptions{JWTAccess: jwt, Tweak: func(cfg *fosite.Config) {
+	s := &st{jwt: jwt, w: world.NewX(world.XOptions{JWTAccess: jwt, DeterministicJWT: jwt, Tweak: func(cfg *fosite.Config) {
 		cfg.DisableRefreshTokenValidation = disableRT
 		cfg.ScopeStrategy = strategies[strat]
 	}}), l: &world.Ledger{}}
